@@ -29,8 +29,10 @@ From LMMaxi Require MaxiModel.
 From LMEncode Require EncodeModel GenAbc EncodeInst EncodeProofs.
 From LMScan Require Import ScanModel ScanConcrete ConcreteProofs.
 From LMScan Require DiscBridge.
-From LME2E Require Import E2EBridgeStripe E2EBridgeScore E2EBridgeMaxi E2EBridgeDisc E2EBridgeEncode
-     E2EPipeline E2EKernelScan E2EProofs.
+From LMScore Require StripeBridge SimdModel GenAvx2 GenLane4.
+From LMPwm Require GenComplement PwmModel C10.
+From LME2E Require Import E2EBridgeStripe E2EBridgeScore E2EBridgeMaxi E2EBridgeDisc E2EBridgeEncode E2EBridgeIndex
+     E2EPipeline E2EKernelScan E2EProofs E2EStretch.
 Import ListNotations.
 
 (* ================= (1) text -> hits ================= *)
@@ -230,22 +232,46 @@ Proof.
   exact (text_to_take_max A C p junk text be old pssm HA HC Hbe Hold Htext HM Hrows Hfin Hmain am thr B k HB).
 Qed.
 
+(* Scanner::max() (after any k calls of next()) with every callee replaced by the kernel model of
+   its group: identical answer *)
+Theorem e2e_max_kernels_agree :
+  forall (A : EM.abc) (p : EI.pipeline) (junk : nat -> EM.sym) (text : list byte)
+         (be : SA.backend) (old : SM.sseq) (pssm : list (list F32.t))
+         (am : arm) (pads : nat -> list Z) (thr : F32.t) (B k : nat),
+    A = GA.dna \/ A = GA.protein -> EM.a_K A <= 16 ->
+    SS.wf_matrix 32 (SM.mat old) ->
+    Forall (LMEncode.EncodeProofs.in_abc A) text ->
+    1 <= length pssm -> Forall (fun row : list F32.t => length row = EM.a_K A) pssm ->
+    LMScan.DiscBridge.finite_nonwild (EM.a_K A) pssm ->
+    (forall i, 16 <= EM.a_K A + length (pads i)) ->
+    e2e_max_kernels A p junk text be old pssm am pads thr B k = e2e_max_after A 32 p junk text be old pssm am thr B k /\
+    e2e_max_after A 32 p junk text be old pssm am thr B 0 = e2e_scan_max A 32 p junk text be old pssm am thr B.
+Proof.
+  intros A p junk text be old pssm am pads thr B k HA HK Hold Htext HM Hrows Hfin Hpads.
+  split; [|reflexivity].
+  exact (text_to_max_kernels A p junk text be old pssm am pads thr B k HA HK Hold Htext HM Hrows Hfin Hpads).
+Qed.
+
 (* ================= (3) kernels = specifications ================= *)
 
 (* The functions the scan model uses "by specification" are what the kernel models of the
    owning groups compute, for every dispatcher arm:
    (a) Threshold<u8>::threshold (maxi): the same LIST as dthreshold, any matrix, any t;
-   (b) Maximum<u8>::max (maxi: generic scan / AVX2 max_epu8): dmax, 32-column byte matrices;
+   (b) Maximum<u8>::max (maxi: generic scan / AVX2 max_epu8): dmax, 32-column byte matrices
+       (the generic scan alone: any column count >= 1, any cell values);
    (c) Score<u8>::score_rows_into (disc: generic kernel / AVX2 wrapper + PSHUFB kernel):
        same rows or both panic, for ANY input with K <= 16 symbols and 32-cell rows;
    (d) on the environment Scanner::new builds from a well-formed input: equalities on every
        row range / position the scanner can ask for, and the whole iteration
-       (k_collect = ce_collect: same hits, same order). *)
+       (k_collect = ce_collect: same hits, same order) and max() after any k next() calls
+       (k_max_after = ce_max_after). *)
 Theorem e2e_kernels_agree_with_specs :
   (forall (am : arm) (d : dmatrix) (t : nat), k_threshold am d t = dthreshold d t) /\
   (forall (am : arm) (d : dmatrix),
      Forall (fun row => length row = 32) d -> Forall (Forall (fun x => x <= 255)) d ->
      k_max am d = Ok (dmax d)) /\
+  (forall (C : nat) (d : dmatrix), 0 < C -> Forall (fun row => length row = C) d ->
+     MM.max_generic Z.leb (zmat d) = Ok (option_map Z.of_nat (dmax d))) /\
   (forall (am : arm) (K : nat) (sm : list (list nat)) (wrap L : nat) (ddata : list (list nat))
           (dtab : list (res (list nat))) (pads : nat -> list Z) (a e : nat),
      K <= 16 -> Forall (fun row => length row = K) ddata -> (forall i, 16 <= K + length (pads i)) ->
@@ -261,17 +287,20 @@ Theorem e2e_kernels_agree_with_specs :
         k_score_rows am pads (ce_L v) (ce_wrap v) (ce_sm v) (d_data (ce_dm v)) a e = ce_score_rows v am a e) /\
      (forall i, i < ce_Lm v ->
         k_score_position (ce_L v) (ce_wrap v) (ce_sm v) (ce_pssm v) i = ce_score_position v i) /\
-     (forall am thr B, k_collect v am pads thr B = ce_collect v am thr B)).
+     (forall am thr B, k_collect v am pads thr B = ce_collect v am thr B) /\
+     (forall am thr B k, k_max_after v am pads thr B k = ce_max_after v am thr B k)).
 Proof.
-  split; [|split; [|split]].
+  split; [|split; [|split; [|split]]].
   - intros am d t. exact (dthreshold_bridge (arm_maxi am) d t).
   - intros am d Hw Hu. exact (k_max_dmax am d Hw Hu).
+  - intros C d HC Hw. exact (dmax_generic_bridge C d HC Hw).
   - intros am K sm wrap L ddata dtab pads a e HK Hd Hp Hs Ht.
     exact (u8_rows_dispatch_bridge am K sm wrap L ddata dtab pads a e HK Hd Hp Hs Ht).
-  - intros K pssm sq wrap v pads Hwf Henv HK Hrows Hpads. split; [|split].
+  - intros K pssm sq wrap v pads Hwf Henv HK Hrows Hpads. split; [|split; [|split]].
     + intros am a e Ha He. exact (k_score_rows_eq K pssm sq wrap v Hwf Henv HK Hrows pads Hpads am a e Ha He).
     + intros i Hi. exact (k_score_position_eq K pssm sq wrap v Hwf Henv i Hi).
     + intros am thr B. exact (k_collect_eq K pssm sq wrap v Hwf Henv HK Hrows pads Hpads am thr B).
+    + intros am thr B k. exact (k_max_after_eq K pssm sq wrap v pads am thr B k Hwf Henv HK Hrows Hpads).
 Qed.
 
 (* ================= bridges between the groups' models of the same thing ================= *)
@@ -312,6 +341,53 @@ Theorem e2e_bridge_score_position :
     rsim (c_score_position sm wrap pssm pos)
          (SCO.score_position F32.add F32.zero pssm (SCO.mkSeq L wrap sm) pos).
 Proof. exact score_position_bridge. Qed.
+
+(* Index<usize> of the striped sequence: four models (stripe, score, disc, scan), one function *)
+Theorem e2e_bridge_index :
+  forall (K C : nat) (st : SM.sseq) (idx : nat),
+    SS.wf_matrix C (SM.mat st) ->
+    rsim (SM.s_index K C st idx) (seq_index (SM.mat st) (SM.swrap st) idx) /\
+    rsim (DM.ss_index (dsq (SM.slen st) (SM.swrap st) (SM.mat st)) idx) (seq_index (SM.mat st) (SM.swrap st) idx) /\
+    rsim (seq_index (SM.mat st) (SM.swrap st) idx)
+         (SCO.sq_index (SCO.mkSeq (SM.slen st) (SM.swrap st) (SM.mat st)) idx).
+Proof.
+  intros K C st idx Hwf. split; [exact (index_stripe_scan K C st idx Hwf)|]. split.
+  - exact (index_disc_scan (SM.mat st) (SM.slen st) (SM.swrap st) idx).
+  - exact (seq_index_sim (SM.mat st) (SM.slen st) (SM.swrap st) idx).
+Qed.
+
+(* score_position: disc's generic model (binary32 instance) = scan's = score's, every input *)
+Theorem e2e_bridge_score_position_disc :
+  forall (sm : list (list nat)) (L wrap : nat) (pssm : list (list F32.t)) (pos : nat),
+    rsim (DM.score_position F32.add F32.zero pssm (dsq L wrap sm) pos) (c_score_position sm wrap pssm pos) /\
+    rsim (DM.score_position F32.add F32.zero pssm (dsq L wrap sm) pos)
+         (SCO.score_position F32.add F32.zero pssm (SCO.mkSeq L wrap sm) pos).
+Proof.
+  intros sm L wrap pssm pos. split.
+  - exact (score_position_disc_scan sm L wrap pssm pos).
+  - exact (score_position_disc_score sm L wrap pssm pos).
+Qed.
+
+(* pwm's model of score_position (C09/C10: a sequence striped without look-ahead rows, read through
+   the closed form) = scan's on the closed-form matrix, for well-formed inputs, any position *)
+Theorem e2e_bridge_score_position_pwm :
+  forall (K C : nat) (m : list (list F32.t)) (s : list nat) (pos : nat),
+    1 <= K -> 1 <= C -> Forall (fun x => x < K) s -> Forall (fun row : list F32.t => K <= length row) m ->
+    rsim (PM.score_position PM.F32ops K C m s pos) (c_score_position (smatrix K C s 0) 0 m pos).
+Proof. exact score_position_pwm_scan. Qed.
+
+(* the closed form of the score: maxi's score_def and pwm's window terms are C01's *)
+Theorem e2e_bridge_score_def_maxi_pwm :
+  (forall (T : Type) (add : T -> T -> T) (zero : T) (K : nat) (pssm : list (list T)) (s : list nat) (i : nat),
+     LMMaxi.MaxiModel.score_def add zero (K - 1) zero pssm s i = SCO.score_def add zero (K - 1) pssm s i) /\
+  (forall (N : nat) (m : list (list F32.t)) (s : list nat) (i : nat),
+     i + length m <= length s ->
+     PM.window_terms PM.F32ops m s i = SCO.score_terms F32.zero N m s i).
+Proof.
+  split.
+  - intros T add zero K pssm s i. exact (score_def_maxi_score add zero K pssm s i).
+  - intros N m s i H. exact (window_terms_pwm_score N m s i H).
+Qed.
 
 (* the generic u8 kernel: the two models agree on every input whatsoever *)
 Theorem e2e_bridge_u8_rows_generic :
@@ -359,6 +435,231 @@ Theorem e2e_wc_gives_main_clause :
   forall (K : nat) (pssm : list (list F32.t)),
     e2e_wc K pssm = true -> LMScan.DiscBridge.finite_nonwild K pssm /\ c08_main_clause K pssm.
 Proof. intros K pssm H. split; [exact (e2e_wc_finite K pssm H)|exact (c08_main_clause_wc K pssm H)]. Qed.
+
+(* ================= (4) reverse complement (C10) ================= *)
+
+(* Scanning the reverse-complemented matrix (C10's model of ScoringMatrix::reverse_complement)
+   over the reverse-complemented sequence: the hit at position i' carries the cells of the
+   MIRRORED window L-M-i' of the original matrix / sequence -- added in the OPPOSITE order.
+   This is unconditional (numeric hypothesis: C08's main clause for the rc matrix). *)
+Theorem e2e_revcomp_scan_reversed_sums :
+  forall (C : nat) (be : SA.backend) (old : SM.sseq) (sq : list nat)
+         (pssm : list (list F32.t)) (am : arm) (thr : F32.t) (B : nat),
+    1 <= C -> SA.backend_typed C be = true -> SS.wf_matrix C (SM.mat old) ->
+    Forall (fun x => x < GC.dna_K) sq ->
+    1 <= length pssm -> Forall (fun row : list F32.t => length row = GC.dna_K) pssm ->
+    LMScan.DiscBridge.finite_nonwild GC.dna_K pssm ->
+    c08_main_clause GC.dna_K (LMPwm.C10.dna_rc F32.zero pssm) -> 1 <= B ->
+    exists H',
+      e2e_scan_syms GC.dna_K C be old (PM.rc_seq GC.dna_comp sq) (LMPwm.C10.dna_rc F32.zero pssm) am thr B = Ok H' /\
+      (forall i' x, In (i', x) H' <->
+         i' + length pssm <= length sq /\
+         F32.ge (fold_left F32.add (rev (SCO.score_terms F32.zero (GC.dna_K - 1) pssm sq
+                                           (length sq - length pssm - i'))) F32.zero) thr = true /\
+         x = fold_left F32.add (rev (SCO.score_terms F32.zero (GC.dna_K - 1) pssm sq
+                                       (length sq - length pssm - i'))) F32.zero) /\
+      NoDup (map fst H').
+Proof.
+  intros C be old sq pssm am thr B HC Hb Hwf Hsym HM Hrows Hfin Hmain HB.
+  exact (revcomp_scan C be old sq pssm am thr B HC Hb Hwf Hsym HM Hrows Hfin Hmain HB).
+Qed.
+
+(* FULL statement (false for IEEE binary32, see e2e_revcomp_scan_refuted): the hits of scanning
+   (rc pssm, rc sq) are the mirrored hits of scanning (pssm, sq), with equal scores.
+   PARTIAL: proved under the extra hypothesis that the binary32 window sums do not depend on
+   the order of addition (true when every partial sum is exact, e.g. integer-valued matrices
+   of small magnitude); what is missing is exactly that hypothesis, and it cannot be removed. *)
+Theorem e2e_revcomp_scan_partial :
+  forall (C : nat) (be : SA.backend) (old : SM.sseq) (sq : list nat)
+         (pssm : list (list F32.t)) (am : arm) (thr : F32.t) (B : nat),
+    1 <= C -> SA.backend_typed C be = true -> SS.wf_matrix C (SM.mat old) ->
+    Forall (fun x => x < GC.dna_K) sq ->
+    1 <= length pssm -> Forall (fun row : list F32.t => length row = GC.dna_K) pssm ->
+    LMScan.DiscBridge.finite_nonwild GC.dna_K pssm ->
+    c08_main_clause GC.dna_K pssm ->
+    c08_main_clause GC.dna_K (LMPwm.C10.dna_rc F32.zero pssm) -> 1 <= B ->
+    (forall i, i + length pssm <= length sq ->
+       fold_left F32.add (rev (SCO.score_terms F32.zero (GC.dna_K - 1) pssm sq i)) F32.zero =
+       SCO.score_def F32.add F32.zero (GC.dna_K - 1) pssm sq i) ->
+    exists H H',
+      e2e_scan_syms GC.dna_K C be old sq pssm am thr B = Ok H /\
+      e2e_scan_syms GC.dna_K C be old (PM.rc_seq GC.dna_comp sq) (LMPwm.C10.dna_rc F32.zero pssm) am thr B = Ok H' /\
+      forall i x, i + length pssm <= length sq ->
+        (In (i, x) H <-> In (length sq - length pssm - i, x) H').
+Proof.
+  intros C be old sq pssm am thr B HC Hb Hwf Hsym HM Hrows Hfin Hmain Hmain' HB Hord.
+  exact (revcomp_mirror C be old sq pssm am thr B HC Hb Hwf Hsym HM Hrows Hfin Hmain Hmain' HB Hord).
+Qed.
+
+(* the same from TEXT: reverse-complemented text (bytes reversed, A<->T, C<->G) through the whole
+   pipeline incl. the encoder; the complement table of coq/pwm and the alphabet string of
+   coq/encode (both regenerated from abc.rs) are consistent (encode_text_rc) *)
+Theorem e2e_revcomp_scan_text_reversed_sums :
+  forall (C : nat) (p p' : EI.pipeline) (junk junk' : nat -> EM.sym) (text : list byte)
+         (be : SA.backend) (old : SM.sseq) (pssm : list (list F32.t)) (am : arm) (thr : F32.t) (B : nat),
+    1 <= C -> SA.backend_typed C be = true -> SS.wf_matrix C (SM.mat old) ->
+    Forall (LMEncode.EncodeProofs.in_abc GA.dna) text ->
+    1 <= length pssm -> Forall (fun row : list F32.t => length row = GC.dna_K) pssm ->
+    LMScan.DiscBridge.finite_nonwild GC.dna_K pssm ->
+    c08_main_clause GC.dna_K (LMPwm.C10.dna_rc F32.zero pssm) -> 1 <= B ->
+    exists sq H',
+      encode_nat p GA.dna junk text = Ok sq /\ length sq = length text /\
+      encode_nat p' GA.dna junk' (text_rc text) = Ok (PM.rc_seq GC.dna_comp sq) /\
+      e2e_scan GA.dna C p' junk' (text_rc text) be old (LMPwm.C10.dna_rc F32.zero pssm) am thr B = Ok H' /\
+      (forall i' x, In (i', x) H' <->
+         i' + length pssm <= length sq /\
+         F32.ge (fold_left F32.add (rev (SCO.score_terms F32.zero (GC.dna_K - 1) pssm sq
+                                           (length sq - length pssm - i'))) F32.zero) thr = true /\
+         x = fold_left F32.add (rev (SCO.score_terms F32.zero (GC.dna_K - 1) pssm sq
+                                       (length sq - length pssm - i'))) F32.zero) /\
+      NoDup (map fst H').
+Proof.
+  intros C p p' junk junk' text be old pssm am thr B HC Hb Hwf Htext HM Hrows Hfin Hmain HB.
+  exact (revcomp_scan_text C p p' junk junk' text be old pssm am thr B HC Hb Hwf Htext HM Hrows Hfin Hmain HB).
+Qed.
+
+(* PARTIAL in the same sense as e2e_revcomp_scan_partial: mirrored hits of the two text pipelines
+   under order-independence of the window sums *)
+Theorem e2e_revcomp_scan_text_partial :
+  forall (C : nat) (p p' : EI.pipeline) (junk junk' : nat -> EM.sym) (text : list byte)
+         (be : SA.backend) (old : SM.sseq) (pssm : list (list F32.t)) (am : arm) (thr : F32.t) (B : nat),
+    1 <= C -> SA.backend_typed C be = true -> SS.wf_matrix C (SM.mat old) ->
+    Forall (LMEncode.EncodeProofs.in_abc GA.dna) text ->
+    1 <= length pssm -> Forall (fun row : list F32.t => length row = GC.dna_K) pssm ->
+    LMScan.DiscBridge.finite_nonwild GC.dna_K pssm ->
+    c08_main_clause GC.dna_K pssm ->
+    c08_main_clause GC.dna_K (LMPwm.C10.dna_rc F32.zero pssm) -> 1 <= B ->
+    exists sq H H',
+      encode_nat p GA.dna junk text = Ok sq /\
+      e2e_scan GA.dna C p junk text be old pssm am thr B = Ok H /\
+      e2e_scan GA.dna C p' junk' (text_rc text) be old (LMPwm.C10.dna_rc F32.zero pssm) am thr B = Ok H' /\
+      ((forall i, i + length pssm <= length sq ->
+          fold_left F32.add (rev (SCO.score_terms F32.zero (GC.dna_K - 1) pssm sq i)) F32.zero =
+          SCO.score_def F32.add F32.zero (GC.dna_K - 1) pssm sq i) ->
+       forall i x, i + length pssm <= length sq ->
+         (In (i, x) H <-> In (length sq - length pssm - i, x) H')).
+Proof.
+  intros C p p' junk junk' text be old pssm am thr B HC Hb Hwf Htext HM Hrows Hfin Hmain Hmain' HB.
+  exact (revcomp_mirror_text C p p' junk junk' text be old pssm am thr B HC Hb Hwf Htext HM Hrows Hfin Hmain Hmain' HB).
+Qed.
+
+(* the witness: rows (1, 1e8, -1e8) in column A, sequence AAAC, threshold 0.5.  Both matrices
+   pass the executable conditioning predicate.  Position 0 scores (1 + 1e8) - 1e8 = 0.0 forwards
+   (no hit) but its mirror image, position 1 of the reverse complement, scores (-1e8 + 1e8) + 1
+   = 1.0 (a hit): the mirrored hit sets differ. *)
+Module RcWitness.
+  Definition m : list (list F32.t) := map (map F32.of_bits)
+    [[1065353216; 0; 0; 0; 4286578688]; [1287568416; 0; 0; 0; 4286578688];
+     [3435052064; 0; 0; 0; 4286578688]]%Z.
+  Definition sq : list nat := [0; 0; 0; 1].
+  Definition thr : F32.t := F32.of_bits 1056964608.
+  Definition bits (l : res (list fhit)) : list (nat * Z) :=
+    map (fun h => (fst h, F32.to_bits (snd h))) (unres [] l).
+End RcWitness.
+
+Theorem e2e_revcomp_scan_refuted :
+  e2e_wc 5 RcWitness.m = true /\ e2e_wc 5 (LMPwm.C10.dna_rc F32.zero RcWitness.m) = true /\
+  RcWitness.bits (e2e_scan_syms 5 32 SA.BGeneric SM.s_default RcWitness.sq RcWitness.m Avx2 RcWitness.thr 4)
+    = [(1, 1287568416%Z)] /\
+  RcWitness.bits (e2e_scan_syms 5 32 SA.BGeneric SM.s_default (PM.rc_seq GC.dna_comp RcWitness.sq)
+                    (LMPwm.C10.dna_rc F32.zero RcWitness.m) Avx2 RcWitness.thr 4)
+    = [(1, 1065353216%Z); (0, 1287568416%Z)].
+Proof. vm_compute. repeat split; reflexivity. Qed.
+
+(* ================= (5) histories on one reused buffer ================= *)
+
+(* After ANY history of stripe / stripe_into / configure / configure_wrap calls (any pipelines
+   that exist for the column count, any sequences, any widths, any order) on one buffer that
+   started as StripedSequence::default(), and after every prefix of it that left at least M-1
+   look-ahead rows: scanning the buffer yields exactly the qualifying positions of the sequence
+   striped LAST, with their C01 scores; these are the entries >= thr of the full binary32 score
+   vector the generic scoring pipeline computes on the same buffer (C01History); max() returns
+   the best of them.  (The scanner borrows the buffer: scans between the operations do not
+   change it, so this covers any interleaving of scans with the history.) *)
+Theorem e2e_pipeline_history :
+  forall (K C : nat) (ops : list SA.op) (n : nat) (pssm : list (list F32.t))
+         (am : arm) (thr : F32.t) (B : nat),
+    let pre := firstn n ops in
+    let sq := SA.last_seq [] pre in
+    2 <= K -> 1 <= C -> forallb (SA.op_typed C) ops = true ->
+    Forall (fun x => x < K) sq ->
+    1 <= length pssm -> length pssm - 1 <= SA.wrap_after 0 pre ->
+    Forall (fun row : list F32.t => length row = K) pssm ->
+    LMScan.DiscBridge.finite_nonwild K pssm -> c08_main_clause K pssm -> 1 <= B ->
+    exists st H r,
+      SA.run K C SM.s_default pre = Ok st /\
+      e2e_scan_history K C pre pssm am thr B = Ok H /\
+      (forall i x, In (i, x) H <->
+         i + length pssm <= length sq /\
+         F32.ge (SCO.score_def F32.add F32.zero (K - 1) pssm sq i) thr = true /\
+         x = SCO.score_def F32.add F32.zero (K - 1) pssm sq i) /\
+      NoDup (map fst H) /\
+      rbind (SCO.generic_score F32.add F32.zero C pssm (LMScore.StripeBridge.of_stripe st)) (SCO.sc_unstripe C) =
+        Ok (map (SCO.score_def F32.add F32.zero (K - 1) pssm sq) (seq 0 (length sq + 1 - length pssm))) /\
+      e2e_max_history K C pre pssm am thr B = Ok r /\
+      (r = None <-> forall i, i + length pssm <= length sq ->
+                      F32.ge (SCO.score_def F32.add F32.zero (K - 1) pssm sq i) thr = false) /\
+      (forall q x, r = Some (q, x) ->
+         q + length pssm <= length sq /\
+         x = SCO.score_def F32.add F32.zero (K - 1) pssm sq q /\
+         F32.ge x thr = true /\
+         (forall i, i + length pssm <= length sq ->
+                    F32.is_nan (SCO.score_def F32.add F32.zero (K - 1) pssm sq i) = false ->
+                    F32.ge x (SCO.score_def F32.add F32.zero (K - 1) pssm sq i) = true)).
+Proof.
+  intros K C ops n pssm am thr B pre sq HK HC Ht Hsym HM Hw Hrows Hfin Hmain HB.
+  exact (history_scan K C ops n pssm am thr B HK HC Ht Hsym HM Hw Hrows Hfin Hmain HB).
+Qed.
+
+(* Scanner = score + threshold.  On the buffer left by any history (32 columns), the hits of the
+   scanner (u8 pre-filter through any arm, then binary32 re-scoring) are exactly the entries >= thr
+   of the full binary32 score vector that the f32 scoring pipeline computes through ANY dispatcher
+   arm (AVX2 permute / gather kernels, SSE2, generic: C01History.C01_history_backends) and
+   unstripes -- the two user-facing ways of the README agree, position by position, bit for bit. *)
+Theorem e2e_scanner_equals_score_threshold :
+  forall (K : nat) (ops : list SA.op) (pssm : list (list F32.t))
+         (pads : nat -> list F32.t) (ar : LMScore.SimdModel.arm) (am : arm) (thr : F32.t) (B : nat),
+    let sq := SA.last_seq [] ops in
+    2 <= K -> forallb (SA.op_typed 32) ops = true ->
+    Forall (fun x => x < K) sq ->
+    1 <= length pssm -> length pssm - 1 <= SA.wrap_after 0 ops -> length pssm <= length sq ->
+    Forall (fun row : list F32.t => length row = K) pssm ->
+    LMScan.DiscBridge.finite_nonwild K pssm -> c08_main_clause K pssm -> 1 <= B ->
+    exists st sc scores H,
+      SA.run K 32 SM.s_default ops = Ok st /\
+      SCO.score_with
+        (LMScore.SimdModel.dispatch_rows_into F32.add F32.zero LMScore.GenAvx2.dispatch_score_f32
+           LMScore.GenAvx2.avx2_permute_consts LMScore.GenAvx2.avx2_gather_consts LMScore.GenLane4.sse2_consts
+           K pssm pads ar) (LMScore.StripeBridge.of_stripe st) = Ok sc /\
+      SCO.generic_score F32.add F32.zero 32 pssm (LMScore.StripeBridge.of_stripe st) = Ok sc /\
+      SCO.sc_unstripe 32 sc = Ok scores /\
+      e2e_scan_history K 32 ops pssm am thr B = Ok H /\
+      (forall i x, In (i, x) H <-> nth_error scores i = Some x /\ F32.ge x thr = true) /\
+      NoDup (map fst H).
+Proof.
+  intros K ops pssm pads ar am thr B sq HK Ht Hsym HM Hw HL Hrows Hfin Hmain HB.
+  exact (scanner_equals_scoring K ops pssm pads ar am thr B HK Ht Hsym HM Hw HL Hrows Hfin Hmain HB).
+Qed.
+
+(* from an already encoded sequence (the form the reverse-complement theorems use) *)
+Theorem e2e_syms_to_hits :
+  forall (K C : nat) (be : SA.backend) (old : SM.sseq) (sq : list nat)
+         (pssm : list (list F32.t)) (am : arm) (thr : F32.t) (B : nat),
+    2 <= K -> 1 <= C -> SA.backend_typed C be = true -> SS.wf_matrix C (SM.mat old) ->
+    Forall (fun x => x < K) sq ->
+    1 <= length pssm -> Forall (fun row : list F32.t => length row = K) pssm ->
+    LMScan.DiscBridge.finite_nonwild K pssm -> c08_main_clause K pssm -> 1 <= B ->
+    exists H,
+      e2e_scan_syms K C be old sq pssm am thr B = Ok H /\
+      (forall i x, In (i, x) H <->
+         i + length pssm <= length sq /\
+         F32.ge (SCO.score_def F32.add F32.zero (K - 1) pssm sq i) thr = true /\
+         x = SCO.score_def F32.add F32.zero (K - 1) pssm sq i) /\
+      NoDup (map fst H).
+Proof.
+  intros K C be old sq pssm am thr B HK HC Hb Hwf Hsym HM Hrows Hfin Hmain HB.
+  exact (syms_to_hits K C be old sq pssm am thr B HK HC Hb Hwf Hsym HM Hrows Hfin Hmain HB).
+Qed.
 
 (* ================= statement pins ================= *)
 
@@ -484,3 +785,42 @@ Example e2e_wc_discriminates :
               [[1203982341; 1203982341; 1203982342; 1203982341; 4286578688];
                [1203982342; 1203982336; 1203982339; 1203982342; 4286578688]]%Z) = false.
 Proof. vm_compute. split; reflexivity. Qed.
+
+(* the README calls as a history on one buffer: to_striped() (dispatching pipeline), configure(&pssm);
+   then a second sequence striped into the same buffer and re-configured: the scan sees the last one *)
+Module ReadmeHistory.
+  Import LMScore.ReadmeExample.
+  Definition ops1 : list SA.op := [SA.OStripe Readme.be readme_seq; SA.OConfigure (length readme_pssm)].
+  Definition ops2 : list SA.op :=
+    ops1 ++ [SA.OStripeInto SA.BGeneric (rev readme_seq); SA.OConfigureWrap 3; SA.OConfigure (length readme_pssm)].
+End ReadmeHistory.
+
+Example e2e_readme_history_hypotheses :
+  forallb (SA.op_typed 32) ReadmeHistory.ops2 = true /\
+  SA.last_seq [] ReadmeHistory.ops1 = LMScore.ReadmeExample.readme_seq /\
+  SA.last_seq [] ReadmeHistory.ops2 = rev LMScore.ReadmeExample.readme_seq /\
+  Forall (fun x => x < 5) (SA.last_seq [] ReadmeHistory.ops2) /\
+  length LMScore.ReadmeExample.readme_pssm - 1 <= SA.wrap_after 0 ReadmeHistory.ops1 /\
+  length LMScore.ReadmeExample.readme_pssm - 1 <= SA.wrap_after 0 ReadmeHistory.ops2 /\
+  length LMScore.ReadmeExample.readme_pssm <= length (SA.last_seq [] ReadmeHistory.ops2).
+Proof.
+  split; [reflexivity|]. split; [reflexivity|]. split; [reflexivity|]. split.
+  { apply Forall_forall. intros x Hx. apply Nat.ltb_lt.
+    assert (Hall : forallb (fun x => x <? 5) (SA.last_seq [] ReadmeHistory.ops2) = true) by (vm_compute; reflexivity).
+    rewrite forallb_forall in Hall. now apply Hall. }
+  vm_compute. repeat split; lia.
+Qed.
+
+Example e2e_readme_history_runs :
+  Readme.bits (e2e_scan_history 5 32 ReadmeHistory.ops1 LMScore.ReadmeExample.readme_pssm Avx2 Readme.thr 256)
+    = [(27, 3234719710%Z); (32, 3239010474%Z); (18, 3232763308%Z)] /\
+  (* without configure(&pssm) there are no look-ahead rows: the AVX2 wrapper refuses the buffer ("not
+     enough wrapping rows"), the generic kernel indexes past the matrix -- the hypothesis
+     M - 1 <= wrap_after of e2e_pipeline_history is needed *)
+  e2e_scan_history 5 32 (firstn 1 ReadmeHistory.ops1) LMScore.ReadmeExample.readme_pssm Avx2 Readme.thr 256 = Panic 33 /\
+  e2e_scan_history 5 32 (firstn 1 ReadmeHistory.ops1) LMScore.ReadmeExample.readme_pssm Generic Readme.thr 256 = Panic 30 /\
+  (* after the second sequence was striped into the same buffer the scan sees that one *)
+  map fst (Readme.bits (e2e_scan_history 5 32 ReadmeHistory.ops2 LMScore.ReadmeExample.readme_pssm Sse2 Readme.thr 1))
+    = map fst (Readme.bits (e2e_scan_syms 5 32 SA.BAvx2 SM.s_default (rev LMScore.ReadmeExample.readme_seq)
+                              LMScore.ReadmeExample.readme_pssm Sse2 Readme.thr 1)).
+Proof. vm_compute. repeat split; reflexivity. Qed.
